@@ -169,6 +169,7 @@ class SaveCrashScenario(PersistScenario):
             for k in range(1, len(key_opens) + 1):
                 plans.append(("key-open", k))
             plans.append(("formatter", 1))
+            plans.append(("write-phase", 1))
             plans += [("unknown-format", 0), ("bad-option", 0)]
             if secrets:
                 plans += [("key-short", 0), ("key-unreadable", 0), ("key-dir-unwritable", 0)]
@@ -208,6 +209,9 @@ class SaveCrashScenario(PersistScenario):
             # count only key-file reads: the destination is never opened for reading by save
         elif what == "formatter":
             ctl.fmt_fail = True
+        elif what == "write-phase":
+            w.armed.append({"seam": "write", "nth": 1, "path": dest, "errno": rng.choice(["ENOSPC", "EIO"]), "arg": rng.randrange(0, 64),
+                            "kind": "write-err"})
         elif what == "unknown-format":
             use_fmt, natural = "no-such-format", True
         elif what == "bad-option":
@@ -248,6 +252,13 @@ class SaveCrashScenario(PersistScenario):
                 restore()
         after = w.peek(dest)
         journal = w.journal[j0:]
+        if what == "write-phase":
+            # serialisation succeeded; the fault hits while the destination is being written.  Observed only.
+            if w.fired:
+                base.fired.append((base.step, {"kind": "write-phase-fault", "seam": "write", "errno": ""}))
+                rec.probe("observed:write-phase-fault:" + ("destination-damaged" if after != P else "destination-intact"))
+            seams.install(base)
+            return
         fired = ctl.fired or bool(w.fired) or natural
         label = what if natural else "%s-fault" % what
         if fired:
